@@ -258,18 +258,30 @@ Definition bagree (c : bcase) (o : bobs) : bool :=
   | _ => false
   end.
 
+(* exhaustive grids (wave 5): (a) success / error of the transform for ALL lengths 1..nmax x a list of block sizes (also
+   non-powers of two), the model being the translated schedule + the reshape / Hadamard-order checks of wht_impl;
+   (b) the padded length of structured_rotation against the translated rotation_dim *)
+Definition wcode (r : wres (list Z)) : Z := match r with WOk _ => 0 | _ => 1 end.
+Definition grid_agree (nmax : nat) (blocks : list Z) (seed : Z) (codes : list Z) : bool :=
+  list_beq Z.eqb (flat_map (fun n => map (fun b => wcode (zwht b (lcg_vec n seed))) blocks) (seq 1 nmax)) codes.
+Definition pad_agree (obs : list (Z * Z)) : bool := forallb (fun p => rotation_dim (fst p) =? snd p) obs.
+
 Inductive C18_case :=
 | CT (block : option Z) (v : vspec)
 | CH (k : nat)
 | CR (c : rcase)
 | CB (c : bcase)
-| CP (cs : list rcase).
+| CP (cs : list rcase)
+| CQgrid (nmax : nat) (blocks : list Z) (seed : Z)
+| CQpad.
 Inductive C18_obs :=
 | OT (o : tobs)
 | OH (h : Z)
 | OR (o : robs)
 | OB (o : bobs)
-| OP (os : list robs).
+| OP (os : list robs)
+| OQgrid (codes : list Z)
+| OQpad (obs : list (Z * Z)).
 
 Definition C18_agree (c : C18_case) (o : C18_obs) : bool :=
   match c, o with
@@ -278,5 +290,7 @@ Definition C18_agree (c : C18_case) (o : C18_obs) : bool :=
   | CR c, OR o => ragree c o
   | CB c, OB o => bagree c o
   | CP cs, OP os => all2 ragree cs os
+  | CQgrid nmax blocks seed, OQgrid codes => grid_agree nmax blocks seed codes
+  | CQpad, OQpad obs => pad_agree obs
   | _, _ => false
   end.
